@@ -42,6 +42,23 @@ fn max_grid_bytes_safety_cap() -> usize {
     MAX_GRID_BYTES_SAFETY_CAP_DEFAULT
 }
 
+/// Allocates the output buffer for `n_points` points, reporting an impossible request as a typed
+/// error (`Vec::with_capacity` panics with "capacity overflow" / aborts instead).
+fn try_point_buffer<T: CoordinateScalar, const D: usize>(
+    n_points: usize,
+    range: (T, T),
+) -> Result<Vec<Point<T, D>>, RandomPointGenerationError> {
+    let mut points = Vec::new();
+    points.try_reserve_exact(n_points).map_err(|e| {
+        RandomPointGenerationError::RandomGenerationFailed {
+            min: format!("{:?}", range.0),
+            max: format!("{:?}", range.1),
+            details: format!("cannot allocate a buffer for {n_points} points in {D}D: {e}"),
+        }
+    })?;
+    Ok(points)
+}
+
 /// Format bytes in human-readable form (e.g., "4.2 GiB", "512 MiB").
 ///
 /// This helper function converts byte counts to human-readable strings
@@ -168,7 +185,7 @@ pub fn generate_random_points<T: CoordinateScalar + SampleUniform, const D: usiz
     }
 
     let mut rng = rand::rng();
-    let mut points = Vec::with_capacity(n_points);
+    let mut points = try_point_buffer(n_points, range)?;
 
     for _ in 0..n_points {
         let coords = [T::zero(); D].map(|_| rng.random_range(range.0..range.1));
@@ -241,7 +258,7 @@ pub fn generate_random_points_seeded<T: CoordinateScalar + SampleUniform, const 
     }
 
     let mut rng = rand::rngs::StdRng::seed_from_u64(seed);
-    let mut points = Vec::with_capacity(n_points);
+    let mut points = try_point_buffer(n_points, range)?;
 
     for _ in 0..n_points {
         let coords = [T::zero(); D].map(|_| rng.random_range(range.0..range.1));
@@ -302,7 +319,8 @@ pub fn generate_random_points_periodic<T: CoordinateScalar + SampleUniform, cons
     }
 
     let mut rng = rand::rngs::StdRng::seed_from_u64(seed);
-    let mut points = Vec::with_capacity(n_points);
+    let widest = domain.first().copied().unwrap_or_else(T::zero);
+    let mut points = try_point_buffer(n_points, (T::zero(), widest))?;
 
     for _ in 0..n_points {
         let coords = domain.map(|period| rng.random_range(T::zero()..period));
@@ -342,7 +360,7 @@ where
     let bounds = (-radius, radius);
     let radius_sq = radius * radius;
 
-    let mut points = Vec::with_capacity(n_points);
+    let mut points = try_point_buffer(n_points, bounds)?;
 
     // The acceptance probability (ball volume / cube volume) shrinks super-exponentially with D
     // (about 1e-10 for D = 24), so bound the work: fail with an error instead of spinning.
@@ -636,7 +654,7 @@ pub fn generate_poisson_points<T: CoordinateScalar + SampleUniform, const D: usi
 
     // Early validation: if min_distance is non-positive, skip spacing constraints
     if min_distance <= T::zero() {
-        let mut points = Vec::with_capacity(n_points);
+        let mut points = try_point_buffer(n_points, bounds)?;
         for _ in 0..n_points {
             let coords = [T::zero(); D].map(|_| rng.random_range(bounds.0..bounds.1));
             points.push(Point::new(coords));
